@@ -204,7 +204,47 @@ def pairs(ctx, op1, op2, cls='AccSignal'):
         ctx.claim('equals_fresh_object:' + r, _eq_all(ctx, getattr(sig, r), getattr(fresh, r)), (op1, op2))
 
 
-SCENARIOS = {'staleness': staleness, 'pairs': pairs}
+SETTINGS_SEQS = {
+    'range_direct_range_back': [('range', (0.5, 3.0), 4), ('direct', [0.6, 1.1, 1.9, 2.8]), ('range', (0.5, 3.0), 4)],
+    'range_freqs_range_back': [('range', (0.5, 3.0), 3), ('freqs', [0.7, 1.4, 2.1]), ('range', (0.5, 3.0), 3)],
+    'range_gen_range_back': [('range', (0.4, 2.5), 2), ('gen', [0.8, 1.6]), ('range', (0.4, 2.5), 2)],
+    'direct_range_direct_back': [('direct', [0.9, 1.9]), ('range', (0.5, 3.0), 2), ('direct', [0.9, 1.9])],
+    'range_twice': [('range', (0.5, 3.0), 4), ('range', (0.5, 3.0), 4)],
+    'range_other_count': [('range', (0.5, 3.0), 4), ('direct', [0.6, 1.9, 2.8]), ('range', (0.5, 3.0), 3)],
+}
+
+
+def settings(ctx, seq, cls='AccSignal'):
+    """sequences of smoothing-frequency settings, each followed by a read: after every step the object's smoothing
+    frequencies are what THAT step asked for (computed here, not taken from the object) and the smoothed spectrum equals a
+    fresh object's with those frequencies."""
+    lib = ctx.lib
+    warnings.simplefilter('ignore')
+    base = ctx.arr('x', N, -10.0, 10.0)
+    sig = _make(lib, cls, base)
+    _ = sig.smooth_fa_spectrum
+    for step, (kind, arg, *rest) in enumerate(SETTINGS_SEQS[seq]):
+        if kind == 'range':
+            sig.set_smooth_fa_frequecies_by_range(arg, rest[0])
+            want = np.logspace(np.log10(arg[0]), np.log10(arg[1]), rest[0])
+        elif kind == 'direct':
+            sig.smooth_fa_freqs = np.array(arg)
+            want = np.array(arg)
+        elif kind == 'freqs':
+            sig.smooth_fa_frequencies = list(arg)
+            want = np.array(arg)
+        else:
+            sig.gen_smooth_fa_spectrum(smooth_fa_freqs=np.array(arg))
+            want = np.array(arg)
+        got = np.asarray(sig.smooth_fa_freqs, dtype=float)
+        ctx.claim('smoothing_frequencies_are_what_the_last_setting_asked_for',
+                  len(got) == len(want) and bool(np.all(np.abs(got - want) <= 1e-12 * np.abs(want))), (step, kind, list(got)))
+        fresh = _make(lib, cls, base, smooth=want)
+        ctx.claim('equals_fresh_object:smooth_fa_spectrum', _eq_all(ctx, sig.smooth_fa_spectrum, fresh.smooth_fa_spectrum), (step, kind))
+        ctx.claim('equals_fresh_object:smooth_fa_frequencies', _eq_all(ctx, sig.smooth_fa_frequencies, fresh.smooth_fa_frequencies), (step, kind))
+
+
+SCENARIOS = {'staleness': staleness, 'pairs': pairs, 'settings': settings}
 SELFTEST_PER_SCENARIO = 10
 SELFTEST_NVEC = 1
 
@@ -218,6 +258,9 @@ def obligations(tier, seed):
             for i in range(0, len(ps), chunk):
                 yield Ob('staleness', {'op': op, 'cls': cls, 'pre': [list(p) for p in ps[i:i + chunk]]}, query_ms=10000,
                          timeout_s=300)
+    for seq in SETTINGS_SEQS:
+        for cls in ('AccSignal', 'Signal'):
+            yield Ob('settings', {'seq': seq, 'cls': cls}, query_ms=10000, timeout_s=300)
     if not q:
         names = op_names('AccSignal')
         for a in names:
